@@ -186,20 +186,6 @@ Section Inv.
       cbn [mul RNum]. apply Rmult_lt_0_compat; [apply HP|exact Heta].
   Qed.
 
-  (** facts about [apply_one] on the untouched parts, used to chain two updates *)
-  Lemma apply_one_post_other unph side (st : Rstate) i u d cav new eta w : w <> u ->
-    post (apply_one RNum unph side st i u d cav new eta) w = post st w.
-  Proof. intro H. unfold apply_one, fset, updf; destruct unph; cbn [post];
-    destruct (Nat.eqb_spec w u); congruence. Qed.
-  Lemma apply_one_scl_other unph side (st : Rstate) i u d cav new eta w : w <> u ->
-    scl (apply_one RNum unph side st i u d cav new eta) w = scl st w.
-  Proof. intro H. unfold apply_one, fset, updf; destruct unph; cbn [scl];
-    destruct (Nat.eqb_spec w u); congruence. Qed.
-  Lemma apply_one_other_side unph side (st : Rstate) i u d cav new eta :
-    side_get RNum (negb side) (fget RNum unph (apply_one RNum unph side st i u d cav new eta) i)
-    = side_get RNum (negb side) (fget RNum unph st i).
-  Proof. unfold apply_one, fset, fget, updf; destruct unph, side; cbn; rewrite Nat.eqb_refl; reflexivity. Qed.
-
   (** ** every step of [propagate_likelihood] preserves the invariant *)
   Section Step.
     Variable unph : bool.
@@ -224,7 +210,7 @@ Section Inv.
         unfold cavof, msgof.
         rewrite apply_one_post_other by congruence.
         rewrite apply_one_scl_other by congruence.
-        rewrite (apply_one_other_side unph false). reflexivity.
+        rewrite (apply_one_other_side RNum unph false). reflexivity.
     Qed.
 
     Lemma edge_loop_good order so so' :
@@ -254,8 +240,14 @@ Section Inv.
       - cbn [fst snd]. rewrite sel_vdiv, sel_vsub, Hc. unfold prior_cavity. rewrite sel_vsub, sel_vscal.
         pose proof (HI k u) as E. unfold totc in E.
         destruct k; cbn [sel fst snd add RNum] in *.
-        + rewrite E. field. lra.
-        + rewrite E. field. lra.
+        + unfold vsub, vscal in *. cbn [fst snd sub mul add RNum T] in *.
+          set (a := rsum nE _) in *. set (b := rsum nB _) in *.
+          destruct (post st u) as [p0 p1]. destruct (fnode st u) as [[m0 m1] [c0 c1]]. cbn [fst snd] in *.
+          generalize dependent (scl st u). intros sc. intros. rewrite E. field. lra.
+        + unfold vsub, vscal in *. cbn [fst snd sub mul add RNum T] in *.
+          set (a := rsum nE _) in *. set (b := rsum nB _) in *.
+          destruct (post st u) as [p0 p1]. destruct (fnode st u) as [[m0 m1] [c0 c1]]. cbn [fst snd] in *.
+          generalize dependent (scl st u). intros sc. intros. rewrite E. field. lra.
       - apply HI.
     Qed.
 
@@ -325,8 +317,8 @@ Section Inv.
       Good (fst so') /\ (forall u, scl (fst so') u = 1) /\ (forall u, post (fst so') u = assemble (fst so') u).
     Proof.
       unfold EP.iterate. intros H HG.
-      destruct (propagate_likelihood _ _ _ _ _ _ _ _ _ true _ _ _ _ _ _ _ so) as [so1|] eqn:E1; cbn [obind] in H; [|discriminate].
-      destruct (propagate_likelihood _ _ _ _ _ _ _ _ _ false _ _ _ _ _ _ _ so1) as [so2|] eqn:E2; cbn [obind] in H; [|discriminate].
+      match type of H with obind ?a _ = _ => destruct a as [so1|] eqn:E1 end; cbn [obind] in H; [|discriminate].
+      match type of H with obind ?a _ = _ => destruct a as [so2|] eqn:E2 end; cbn [obind] in H; [|discriminate].
       pose proof (propagate_likelihood_good true blik S s HS _ _ _ E1 HG) as G1.
       pose proof (propagate_likelihood_good false elik S s HS _ _ _ E2 G1) as G2.
       assert (G3 : forall st3, (if regularise then propagate_prior RNum infty nN free S mx rt (fst so2) else Some (fst so2)) = Some st3 -> Good st3).
@@ -347,4 +339,109 @@ Section Inv.
       - destruct (iterate so) as [so1|] eqn:E; cbn [obind] in H; [|discriminate].
         eapply IH; [exact H|]. eapply iterate_good; eassumption. Qed.
   End Iterate.
+
+  (** ** every sequence of operations *)
+  Notation op := (op RNum).
+  Notation run_op := (run_op RNum tiny infty nE ep ec nB bj bk nN lo hi Orc project).
+  Notation run_ops := (run_ops RNum tiny infty nE ep ec nB bj bk nN lo hi Orc project).
+
+  Definition shape_ok (o : op) : Prop :=
+    match op_shape RNum o with Some sh => 1 < sh | None => True end.
+
+  Lemma run_op_good o so so' : shape_ok o -> run_op o so = Some so' -> Good (fst so) -> Good (fst so').
+  Proof. destruct o as [unph order lik S s|free S mx rt|free S pen|]; unfold shape_ok; cbn [op_shape EPSpec.run_op]; intros HS H HG.
+    - exact (propagate_likelihood_good unph lik S s HS order so so' H HG).
+    - destruct (propagate_prior _ _ _ _ _ _ _ _) as [st|] eqn:E; cbn [obind] in H; [|discriminate].
+      inversion H; subst; cbn [fst]. eapply propagate_prior_good; eassumption.
+    - destruct (prior_update _ _ _ _ _ _) as [st|] eqn:E; cbn [obind] in H; [|discriminate].
+      inversion H; subst; cbn [fst]. eapply prior_update_good; eassumption.
+    - inversion H; subst; cbn [fst]. apply rescale_factors_good; exact HG.
+  Qed.
+
+  Lemma run_ops_good ops so so' : Forall shape_ok ops -> run_ops ops so = Some so' ->
+    Good (fst so) -> Good (fst so').
+  Proof. intros HQ H HG.
+    exact (run_ops_ind RNum tiny infty nE ep ec nB bj bk nN lo hi Orc project (fun so1 => Good (fst so1)) shape_ok
+             run_op_good ops so so' HQ H HG). Qed.
+
+  (** ** the invariant in model terms: [post u = assemble u * scale u] *)
+  Definition consistent (st : Rstate) : Prop :=
+    forall u, post st u = vscal (assemble st u) (scl st u).
+
+  Lemma consistent_inv st : consistent st <-> Inv st.
+  Proof. split.
+    - intros H k u. rewrite (H u), sel_vscal, sel_assemble. lra.
+    - intros H u. apply sel_ext. intro k. rewrite (H k u), sel_vscal, sel_assemble. lra. Qed.
 End Inv.
+
+(** ** Statements in the form used by props/C21.v *)
+Section Final.
+  Variable tiny infty : R.
+  Variable nE : nat.
+  Variable ep ec : nat -> nat.
+  Variable nB : nat.
+  Variable bj bk : nat -> nat.
+  Variable nN : nat.
+  Variable lo hi : nat -> R.
+  Variable Orc : Type.
+  Variable project : Orc -> call RNum -> option (RV * RV * Orc).
+
+  Notation consistent := (consistent nE ep ec nB bj bk).
+  Notation assemble := (assemble RNum nE ep ec nB bj bk).
+
+  Lemma C21_inv ops so so' :
+    Forall shape_ok ops ->
+    run_ops RNum tiny infty nE ep ec nB bj bk nN lo hi Orc project ops so = Some so' ->
+    consistent (fst so) -> (forall u, 0 < scl (fst so) u) ->
+    consistent (fst so') /\ (forall u, 0 < scl (fst so') u).
+  Proof. intros HQ H HC HP.
+    destruct (run_ops_good tiny infty nE ep ec nB bj bk nN lo hi Orc project ops so so' HQ H) as [HI HP'].
+    - split; [apply consistent_inv; exact HC|exact HP].
+    - split; [apply consistent_inv; exact HI|exact HP']. Qed.
+
+  Lemma C21_iter block_order edge_order blik elik free S s mx rt regularise so so' :
+    1 < S ->
+    iterate RNum tiny infty nE ep ec nB bj bk nN lo hi Orc project block_order edge_order blik elik
+      free S s mx rt regularise so = Some so' ->
+    consistent (fst so) -> (forall u, 0 < scl (fst so) u) ->
+    (forall u, scl (fst so') u = 1) /\ (forall u, post (fst so') u = assemble (fst so') u) /\
+    consistent (fst so').
+  Proof. intros HS H HC HP.
+    destruct (iterate_good tiny infty nE ep ec nB bj bk nN lo hi Orc project block_order edge_order blik elik
+                free S s mx rt regularise HS so so' H) as ([HI _] & H1 & H2).
+    - split; [apply consistent_inv; exact HC|exact HP].
+    - split; [exact H1|]. split; [exact H2|]. apply consistent_inv; exact HI. Qed.
+
+  Lemma C21_iter_n block_order edge_order blik elik free S s mx rt regularise k o so' :
+    1 < S ->
+    iterate_n RNum tiny infty nE ep ec nB bj bk nN lo hi Orc project block_order edge_order blik elik
+      free S s mx rt regularise (Datatypes.S k) (init, o) = Some so' ->
+    (forall u, scl (fst so') u = 1) /\ (forall u, post (fst so') u = assemble (fst so') u).
+  Proof. intros HS H.
+    assert (G : forall k so, Good nE ep ec nB bj bk (fst so) ->
+      iterate_n RNum tiny infty nE ep ec nB bj bk nN lo hi Orc project block_order edge_order blik elik
+        free S s mx rt regularise (Datatypes.S k) so = Some so' ->
+      (forall u, scl (fst so') u = 1) /\ (forall u, post (fst so') u = assemble (fst so') u)).
+    { clear H o k. intro k. induction k as [|k IH]; intros so HG H; cbn [iterate_n] in H.
+      - match type of H with obind ?a _ = _ => destruct a as [so1|] eqn:E end; cbn [obind] in H; [|discriminate].
+        inversion H; subst.
+        destruct (iterate_good tiny infty nE ep ec nB bj bk nN lo hi Orc project block_order edge_order blik elik
+                    free S s mx rt regularise HS _ _ E HG) as (_ & H1 & H2). split; assumption.
+      - match type of H with obind ?a _ = _ => destruct a as [so1|] eqn:E end; cbn [obind] in H; [|discriminate].
+        apply (IH so1); [|exact H].
+        apply (iterate_good tiny infty nE ep ec nB bj bk nN lo hi Orc project block_order edge_order blik elik
+                    free S s mx rt regularise HS _ _ E HG). }
+    apply (G k (init, o)); [apply init_good|exact H].
+  Qed.
+
+  Lemma C21_rf (st : Rstate) :
+    consistent st -> (forall u, 0 < scl st u) ->
+    (forall u, post (rescale_factors RNum ep ec bj bk st) u = post st u) /\
+    (forall u, scl (rescale_factors RNum ep ec bj bk st) u = 1) /\
+    (forall u, post st u = assemble (rescale_factors RNum ep ec bj bk st) u).
+  Proof. intros HC HP.
+    destruct (rescale_factors_good nE ep ec nB bj bk st) as (G & H1 & H2).
+    - split; [apply consistent_inv; exact HC|exact HP].
+    - split; [exact H1|]. split; [exact H2|]. intro u. rewrite <- H1. apply sel_ext. intro k.
+      destruct G as [HI _]. rewrite (HI k u), H2, sel_assemble. lra. Qed.
+End Final.
